@@ -116,6 +116,8 @@ type Interp struct {
 	hashLz     *hashLazy
 	opaqueSeq  int
 	objSeq     int
+	callRing   [12]string
+	callRingN  int
 	sideTab    map[*value]interface{}
 	pathLog    []string
 	intBounds  map[int][2]*big.Int
@@ -322,9 +324,9 @@ func (in *Interp) runPath(fn *ssa.Function) (end pathEnd) {
 					if lo < 0 {
 						lo = 0
 					}
-					panic(fmt.Sprintf("%v [interpreting %s]", r, strings.Join(in.stack[lo:], " > ")))
+					panic(fmt.Sprintf("%v [interpreting %s] [last calls: %s]", r, strings.Join(in.stack[lo:], " > "), strings.Join(in.lastCalls(), " > ")))
 				}
-				panic(r)
+				panic(fmt.Sprintf("%v [last calls: %s]", r, strings.Join(in.lastCalls(), " > ")))
 			}
 		}
 	}()
@@ -748,6 +750,8 @@ func (in *Interp) callSSA(caller *frame, fn *ssa.Function, args []value, env []v
 	}
 	in.depth++
 	in.stack = append(in.stack, fn.String())
+	in.callRing[in.callRingN%len(in.callRing)] = fn.String()
+	in.callRingN++
 	defer func() { in.depth--; in.stack = in.stack[:len(in.stack)-1] }()
 	for fr.block != nil {
 		in.runFrame(fr)
@@ -1246,4 +1250,15 @@ func sortedKeys(m map[string]bool) []string {
 	}
 	sort.Strings(k)
 	return k
+}
+
+// lastCalls: the most recently entered interpreted functions (diagnostics for engine panics only)
+func (in *Interp) lastCalls() []string {
+	var out []string
+	for i := in.callRingN - len(in.callRing); i < in.callRingN; i++ {
+		if i >= 0 {
+			out = append(out, in.callRing[i%len(in.callRing)])
+		}
+	}
+	return out
 }
